@@ -2,7 +2,7 @@
 //!
 //! Three exhaustive families (no sampling):
 //!  (1) DAMAGE SWEEP   every single token-level edit of every seed (corpus files + generated programs) and the full
-//!                     options grid on 12 representative programs, in-process through `driver::drive`;
+//!                     options grid on 13 representative programs, in-process through `driver::drive`;
 //!  (2) DRIVER+FAULTS  every driver corpus job and generated multi-file jobs, fault-free and with every single
 //!                     injected I/O fault (k-th get_handle / get_bytes / write_bytes for every k, each file
 //!                     permanently missing / unreadable), plus every output format on empty / 1-bit / normal outputs;
@@ -1328,7 +1328,7 @@ impl Space for SweepSpace {
 }
 
 // =================================================================================================
-// family 1b: options grid on 12 representative programs (through the driver)
+// family 1b: options grid on 13 representative programs (through the driver)
 
 fn grid_programs() -> Vec<(&'static str, String, Files)> {
     let none: Files = vec![];
@@ -1340,6 +1340,7 @@ fn grid_programs() -> Vec<(&'static str, String, Files)> {
         v("ok-if-on-define", format!("{}val = 1\n#if val == 1 {{\n ld 1\n}} #else {{\n ld 2\n}}\n", RULES), &none),
         v("ok-asm-block", "#ruledef {\n ld {x: u8} => 0x10 @ x\n n {x} => asm {\n  ld {x}\n  ld l\n  l:\n }\n}\nval = 1\nn 5\nld val\n".to_string(), &none),
         v("ok-empty-output", "val = 1\n".to_string(), &none),
+        v("ok-reservation-no-labels", "val = 1\n#d8 1\n#res 2\n#d8 2\n".to_string(), &none),
         v("ok-include-fn", format!("{}#include \"inc.asm\"\n#fn f(x) => x + 1\nval = 1\nld f(val)\njmp inner\n", RULES), &data),
         v("fail-parse", format!("{}val = 1\nld (\n", RULES), &none),
         v("fail-no-match", format!("{}val = 1\nmov val\n", RULES), &none),
@@ -1417,9 +1418,11 @@ impl Space for GridSpace {
 // =================================================================================================
 // family 2: driver jobs, formats, injected faults
 
-const FORMATS: [&str; 27] = [
+const FORMATS: [&str; 34] = [
     "binary", "annotated", "annotated,base:2,group:3", "annotatedbin", "binstr", "hexstr", "bindump", "hexdump", "mif", "intelhex", "intelhex,addr_unit:16", "deccomma", "hexcomma", "decspace",
     "hexspace", "decc", "hexc", "logisim8", "logisim16", "addrspan", "tcgame", "tcgame,base:2,group:4", "tcgamebin", "symbols", "mesen-mlb", "annotated,base:8,group:1", "intelhex,addr_unit:32",
+    // values outside the documented sets: must be rejected cleanly, never reach a formatter
+    "annotated,base:1", "annotated,base:3", "annotated,group:0", "tcgame,base:8", "tcgame,base:1", "intelhex,addr_unit:1", "binary,foo:1",
 ];
 
 /// programs for the format totality family: (name, text, tags)
@@ -2173,7 +2176,7 @@ pub fn run(ctx: &Ctx) -> Report {
     let mut rep = Report::new(
         "exploration",
         &format!(
-            "in-process (driver::drive + Report::print_all on a fault-injecting mock file server, run in worker sub-processes): identity and EVERY single token edit (delete / duplicate / swap-with-next / replace by and insert each of {} alphabet tokens, at every token boundary of my own lexer) of every seed = every .asm file under tests/ {} + 18 generated programs{}; options grid 12 programs x budgets {{1,2,10}} x 4 optimisation-switch combinations x 11 define variants (valid / unused / malformed) x --debug-iters; every tests/driver job + 21 generated multi-file jobs (1-3 output groups) fault-free and with EVERY single fault (k-th get_handle / get_bytes / write_bytes for every k, each file missing, each file unreadable); 27 formats x 12 output shapes (empty, 1 bit, partial byte, banks, labels) x file/print. Real binary: one representative per (verdict, first message) class, the smallest example of every violation family, every driver/format job, every real-file-system fault (each input missing / a directory, each output path uncreatable: parent missing / a directory). Verdict per run: exactly one of success (Ok, no error diagnostic, every requested file written, exit 0) / failure (Err, >= 1 error, nothing written unless the failure is an unwritable output, exit != 0) and never a panic / signal / exit 101. No verdict: a k-th-call fault on a file that was already read in the same run (not a permanent fault); a run that gives no result within the time limit unless every numeric literal of its input has <= 5 digits. Non-trivial = damaged input whose observable result differs from its seed's (distinct by text), every grid case, every job, every fault that fired.",
+            "in-process (driver::drive + Report::print_all on a fault-injecting mock file server, run in worker sub-processes): identity and EVERY single token edit (delete / duplicate / swap-with-next / replace by and insert each of {} alphabet tokens, at every token boundary of my own lexer) of every seed = every .asm file under tests/ {} + 18 generated programs{}; options grid 13 programs x budgets {{1,2,10}} x 4 optimisation-switch combinations x 11 define variants (valid / unused / malformed) x --debug-iters; every tests/driver job + 21 generated multi-file jobs (1-3 output groups) fault-free and with EVERY single fault (k-th get_handle / get_bytes / write_bytes for every k, each file missing, each file unreadable); 34 format strings (27 valid, 7 with illegal parameter values) x 12 output shapes (empty, 1 bit, partial byte, banks, labels) x file/print. Real binary: one representative per (verdict, first message) class, the smallest example of every violation family, every driver/format job, every real-file-system fault (each input missing / a directory, each output path uncreatable: parent missing / a directory). Verdict per run: exactly one of success (Ok, no error diagnostic, every requested file written, exit 0) / failure (Err, >= 1 error, nothing written unless the failure is an unwritable output, exit != 0) and never a panic / signal / exit 101. No verdict: a k-th-call fault on a file that was already read in the same run (not a permanent fault); a run that gives no result within the time limit unless every numeric literal of its input has <= 5 digits. Non-trivial = damaged input whose observable result differs from its seed's (distinct by text), every grid case, every job, every fault that fired.",
             if ctx.thorough { 48 } else { 16 },
             if ctx.thorough { "(all of them)".to_string() } else { format!("with at most {} tokens (whitespace, line breaks and comments count as tokens)", limit) },
             if ctx.thorough { format!("; ALL double edits (12-token alphabet) of the seeds with at most {} tokens", DOUBLE_TOKEN_LIMIT) } else { String::new() }
